@@ -64,7 +64,10 @@ EXPORT void spqlios_verif_set_cpu_mask(int disable_avx2, int disable_fma, int di
   spqlios_verif_mask_fma = disable_fma;
   spqlios_verif_mask_avx512 = disable_avx512;
 }
+static uint64_t spqlios_verif_queries = 0;
+EXPORT uint64_t spqlios_verif_cpu_query_count(void) { return __atomic_load_n(&spqlios_verif_queries, __ATOMIC_RELAXED); }
 EXPORT int spqlios_verif_cpu_supports(const char* feature, int detected) {
+  __atomic_fetch_add(&spqlios_verif_queries, 1, __ATOMIC_RELAXED);
   if (spqlios_verif_mask_avx2 && strcmp(feature, "avx2") == 0) return 0;
   if (spqlios_verif_mask_fma && strcmp(feature, "fma") == 0) return 0;
   if (spqlios_verif_mask_avx512 && strncmp(feature, "avx512", 6) == 0) return 0;
